@@ -135,6 +135,21 @@ def _corpus():
     c.append(_case('counts', sc=[1, 1], st=[0, 4], nt=3, c=1, dts=DT_ALL))             # template >= n_templates
     c.append(_case('counts', sc=[1, 1], st=[0, 0], nt=3, c=5, dts=DT_ALL))             # empty cluster
     c.append(_case('spc_flatten', sc=[7, 0, 3, 3, 0, 7, 2], ids=None, dts=DT_ALL))
+    # stage 2: the behaviours the theorems state outside the documented use
+    c.append(_case('index_of', arr=[7, 0, 3, -1, 2], lookup=[7, 3, 0, 2], dts=DT_SIGNED))         # C07_ex_index_of
+    c.append(_case('index_of', arr=[5, 8, -2, -9], lookup=[7, 3, 0, 2], dts=DT_SIGNED))           # non-member, max+1, wraps
+    c.append(_case('index_of', arr=[9], lookup=[7, 3, 0, 2], dts=DT_ALL))                         # IndexError (N = 9)
+    c.append(_case('index_of', arr=[-10], lookup=[7, 3, 0, 2], dts=DT_SIGNED))                    # IndexError
+    c.append(_case('gmean', cols=[[10, 1, 2]], sc=[-2, 3, 3], twod=False, dts=DT_SIGNED))         # id -2 wraps into cluster 3
+    c.append(_case('gmean', cols=[[10, 1, 2]], sc=[-3, 0, 3], twod=False, dts=DT_SIGNED))         # id -3 lands in cell 0
+    c.append(_case('gmean', cols=[[1, 2]], sc=[2, 2, 2], twod=False, dts=DT_ALL))                 # AssertionError
+    c.append(_case('gmean', cols=[[1, 2, 3, 4]], sc=[2, 0, 2, 0], twod=False, dts=DT_ALL))        # repeated ids: np.add.at
+    c.append(_case('counts', sc=[7, 0, 3, 3, 0, 7, 2], st=[1, 1, 0, 2, 1, 0, 0], nt=4, c=5, dts=DT_ALL))   # absent cluster
+    c.append(_case('counts', sc=[1, 1], st=[0, -4], nt=3, c=1, dts=DT_SIGNED))                    # ValueError
+    c.append(_case('counts', sc=[1, 1, 2], st=[0, 0, -4], nt=3, c=1, dts=DT_SIGNED))              # negative template elsewhere: fine
+    c.append(_case('counts', sc=[0, 0, 1], st=[2, 2], nt=3, c=0, dts=DT_ALL))                     # short templates, not reached
+    c.append(_case('counts', sc=[0, 0, 1], st=[2, 2], nt=3, c=1, dts=DT_ALL))                     # short templates: IndexError
+    c.append(_case('flatten', d=[[3, []], [1, []]]))                                              # only empty groups
     return c
 
 
@@ -192,9 +207,9 @@ def generate(tier, rng):
     L = 6 if quick else 8              # grouping, unique
     LS = 3 if quick else 5             # selection x every subset of REQ
     # ---- grouping: every vector, without and with a spike-id vector
-    for v in _vectors(ALPHA, L):
+    for n, v in enumerate(_vectors(ALPHA, L)):
         cases.append(_case('spc', sc=v, ids=None, dts=DT_ALL))
-        if v:
+        if v and (not quick or len(v) < L or n % 4 == 0):
             ids = _rand_ids(rng, len(v))
             cases.append(_case('spc', sc=v, ids=ids, dts=DT_ALL))
     # ---- selection: every subset of REQ on short vectors; unsorted/duplicated lists on the long ones
@@ -203,10 +218,10 @@ def generate(tier, rng):
         for s in subsets:
             cases.append(_case('sic', sc=v, cl=s, dts=DT_ALL))
     for v in _vectors(ALPHA, L, LS + 1):
-        for _ in range(2):
+        for _ in range(1 if quick else 2):
             cases.append(_case('sic', sc=v, cl=_rand_req(rng, REQ), dts=DT_ALL))
     # ---- unique
-    for v in _vectors(ALPHA, L):
+    for v in _vectors(ALPHA, L - 1 if quick else L):
         cases.append(_case('unique', x=v, dts=DT_ALL))
     for v in _vectors((-1,) + ALPHA, 4 if quick else 5, 1):
         if -1 in v:
@@ -231,7 +246,8 @@ def generate(tier, rng):
     # ---- TemplateModel queries
     for v in _vectors(ALPHA, 4 if quick else 5):
         for c in REQ:
-            cases.append(_case('spikes_of', v=v, c=c, which='cluster', dts=['int32']))
+            if not quick or len(v) < 4:
+                cases.append(_case('spikes_of', v=v, c=c, which='cluster', dts=['int32']))
             cases.append(_case('spikes_of', v=v, c=c, which='template', dts=DT_ALL))
     for k in range(0, (3 if quick else 4) + 1):
         for sc in itertools.product((0, 2, 3), repeat=k):
